@@ -189,7 +189,8 @@ PROPS = {
     "C08": {
         "required_theorems": ["c08_sync_chunk_independent", "c08_sync_prefix", "c08_sync_window", "c08_skip", "c08_delay",
                               "c08_rtlsdr", "c08_no_panic_hand", "c08_resampler", "c08_fir", "c08_gated", "c08_gated_prefix",
-                              "c08_zerocrossing_no_panic"],
+                              "c08_zerocrossing_no_panic", "c08_generator_source", "c08_generator_source_prefix",
+                              "c08_vector_sink"],
         "runs": [
             # valid IL2P transmissions (library test vector + sync tags) between noise: frames must survive any chunking
             {"sub": "blocks", "quick": ["--seed", "{seed}", "--mode", "self", "--set", "every", "--block", "il2p", "--cases", 250,
@@ -221,7 +222,8 @@ PROPS = {
     "C09": {
         "required_theorems": ["c09_sync_within_windows", "c09_sync_wait_input_truthful", "c09_sync_wait_output_truthful",
                               "c09_sync_progress", "c09_sync_retires", "c09_skip", "c09_rtlsdr", "c09_fir", "c09_gated",
-                              "c09_delay", "c09_au_encode", "c09_v2s", "c09_resampler"],
+                              "c09_delay", "c09_au_encode", "c09_v2s", "c09_resampler", "c09_generator_source", "c09_vector_sink",
+                              "c09_null_sink", "c09_fft_float_eof_sound", "c09_fft_float_old_eof_unsound"],
         "runs": [
             {"sub": "blocks", "quick": ["--seed", "{seed}", "--set", "modelled", "--cases", 800, "--steps", 40, "--tag-heavy", 1],
              "thorough": ["--seed", "{seed}", "--set", "modelled", "--cases", 40000, "--steps", 80, "--tag-heavy", 1]},
@@ -245,7 +247,8 @@ PROPS = {
     },
     "C10": {
         "required_theorems": ["c10_samplewise", "c10_nrzi", "c10_nrzi_xor_tee_delay", "c10_skip", "c10_delay", "c10_rtlsdr",
-                              "c10_s2pdu", "c10_resampler", "c10_v2s", "c10_v2s_call", "c10_constant_source", "c10_fft_stream", "c10_fft_stream_call"],
+                              "c10_s2pdu", "c10_resampler", "c10_v2s", "c10_v2s_call", "c10_constant_source", "c10_fft_stream", "c10_fft_stream_call",
+                              "c10_vector_sink", "c10_vector_sink_call", "c10_null_sink"],
         "runs": [
             {"sub": "blocks", "quick": ["--seed", "{seed}", "--set", "modelled", "--cases", 1600, "--steps", 30],
              "thorough": ["--seed", "{seed}", "--set", "modelled", "--cases", 80000, "--steps", 60]},
@@ -275,7 +278,8 @@ PROPS = {
         "required_theorems": ["c11_fir_any_chunking", "c11_fir_sliding", "c11_fir_eq_conv", "c11_kernels_agree",
                               "c11_fft_size", "c11_ola_eq_conv", "c11_fft_eq_fir_delayed", "c11_iir_recurrence",
                               "c11_single_pole", "c11_lowpass_hamming", "c11_lowpass_blackman", "c11_hilbert_taps",
-                              "c11_fm_identities", "c11_iir_clamped", "c11_fft_block", "c11_hilbert_block"],
+                              "c11_fm_identities", "c11_iir_clamped", "c11_fft_block", "c11_hilbert_block",
+                              "c11_signal_source_ideal", "c11_fft_float_block"],
         "runs": [
             {"sub": "blocks", "quick": ["--seed", "{seed}", "--set", "dsp", "--cases", 900, "--steps", 30, "--tag-heavy", 1],
              "thorough": ["--seed", "{seed}", "--set", "dsp", "--cases", 40000, "--steps", 60, "--tag-heavy", 1],
@@ -511,6 +515,13 @@ PROPS = {
              "thorough": ["--seed", "{seed}", "--set", "modelled", "--block", "zerocross", "--cases", 6000, "--steps", 60]},
             {"sub": "blocks", "quick": ["--seed", "{seed}", "--set", "modelled", "--block", "zerocross_clk", "--cases", 60, "--steps", 40],
              "thorough": ["--seed", "{seed}", "--set", "modelled", "--block", "zerocross_clk", "--cases", 3000, "--steps", 60]},
+            # every block of the two chains alone, drip-fed vs greedy, with the eof() soundness line (!eofsound): a block
+            # that answers eof() with samples still inside is retired by the runners and the end of a transmission is
+            # lost - on MTGraph only for some thread timings, here deterministically
+            {"sub": "blocks", "quick": ["--seed", "{seed}", "--mode", "self", "--set", "chain", "--cases", 600, "--steps", 40,
+                                        "--tight-probes", 40],
+             "thorough": ["--seed", "{seed}", "--mode", "self", "--set", "chain", "--cases", 30000, "--steps", 60,
+                          "--tight-probes", 2000], "timeout": 20000},
             # the statement of c20_zero_crossing_ideal on the implementation's float arithmetic
             {"sub": "blocks", "quick": ["--seed", "{seed}", "--mode", "self", "--set", "none", "--cases", 0, "--zc-ideal", 150],
              "thorough": ["--seed", "{seed}", "--mode", "self", "--set", "none", "--cases", 0, "--zc-ideal", 8000],
@@ -655,13 +666,13 @@ MANIFEST_TEXT = {
                 "modelled blocks are also compared call by call with the Lean model.",
         "design_ref": "DESIGN.md section 2, C08",
         "note": "Proof covers the blocks named in RR/Props/C08.lean (sync family, Skip, Delay, RtlSdrDecode, FirFilter, "
-                "RationalResampler, ZeroCrossing, SymbolSync; FftFilter in C11, StreamToPdu in C10); Hilbert/deframers and the "
+                "RationalResampler, ZeroCrossing, SymbolSync, the signal sources (generator family), VectorSink; FftFilter in C11, StreamToPdu in C10); Hilbert/deframers and the "
                 "remaining converters are checked on the real code (drip-fed vs greedy), some also against Lean models. Many chunking defects were repaired by fix: commits (see KNOWN_FINDINGS.txt).",
         "technique": "Lean 4 proof (induction over arbitrary schedules) + drip-feed correspondence + real-vs-real chunking differential",
     },
     "C09": {
         "text": "Lean 4 theorems about work() on an arbitrary view for the sync family (any block built with the macro), Skip, "
-                "RtlSdrDecode, Delay, AuEncode (asks for exactly the two bytes a sample needs), VecToStream (asks for exactly the packet length, with which it emits the packet), ZeroCrossing/SymbolSync (c09_gated: waits name the empty input or the very output that is full, Again only with a consumed sample) and FirFilter (c09_fir: it asks for exactly ntaps+deci-1 samples, with which it will progress): consumption/commit within the windows; a wait names a stream that really lacks the amount; when no "
+                "RtlSdrDecode, Delay, the signal sources (c09_generator_source: a full output is waited for, never polled), VectorSink/NullSink (every call drains the window, also when the sink is full), FftFilterFloat (c09_fft_float_eof_sound: its eof() is true only when a further call delivers nothing - the wrapper model with its two inner streams is compared call by call, eof() answers included, with the real block around an exact engine; c09_fft_float_old_eof_unsound is the witness for the repaired defect), AuEncode (asks for exactly the two bytes a sample needs), VecToStream (asks for exactly the packet length, with which it emits the packet), ZeroCrossing/SymbolSync (c09_gated: waits name the empty input or the very output that is full, Again only with a consumed sample) and FirFilter (c09_fir: it asks for exactly ntaps+deci-1 samples, with which it will progress): consumption/commit within the windows; a wait names a stream that really lacks the amount; when no "
                 "stream lacks anything the call progresses; Again only with progress; ended+drained inputs are reported. For every "
                 "other block the same acceptor runs on real traces with the stream-identity hook.",
         "design_ref": "DESIGN.md section 2, C09",
@@ -673,7 +684,7 @@ MANIFEST_TEXT = {
         "text": "Lean 4 theorems that the mirrored work() functions compute independent documentation-level specs with exact "
                 "counts: all sample-wise sync blocks generically (row p = f(inputs at p)), NRZI (= 1 xor a xor prev, and = the "
                 "Tee/Delay/Xor/XorConst composition of the doc comment), Skip (= drop k), Delay (= k zeros ++ x), RtlSdrDecode "
-                "(= pairwise conversion), for every chunking. Other exactly-specified blocks are tied to executable Lean models "
+                "(= pairwise conversion), for every chunking; VectorSink (storage = the first max_size samples of the input however it is cut into read windows; the storage is read through VectorSink::hook() and compared call by call), NullSink. Other exactly-specified blocks are tied to executable Lean models "
                 "by correspondence on boundary alphabets and parameter grids.",
         "design_ref": "DESIGN.md section 2, C10",
         "note": "Float sample functions are single expressions evaluated by Lean Float32 in the driver (trusted, not proved).",
@@ -687,7 +698,7 @@ MANIFEST_TEXT = {
                 "scalar fold, overlap-add around a cyclic convolution of size calc_fft_size(ntaps) (a power of two >= 2*ntaps) "
                 "is the linear convolution with zero pre-history, hence FFT output = FIR output delayed by ntaps-1; IIR "
                 "recurrences and closed form; over the reals low_pass is symmetric with unit DC gain for Hamming, Blackman and "
-                "Blackman-Harris windows, hilbert() is antisymmetric, quadrature demod = gain x phase advance, FastFM identity. "
+                "Blackman-Harris windows, hilbert() is antisymmetric, quadrature demod = gain x phase advance, FastFM identity; the signal sources' phase accumulator (reduced mod 2 pi after every step) yields the pure tone sin(k rad) / -cos(k rad) for every schedule; FftFilterFloat = the complex filter between two inner streams of any capacity delivers, for every schedule, the converted prefix of the linear convolution (c11_fft_float_block) (c11_signal_source_ideal; its f64 instance, with an exact fmod and libm's sin, is compared bit for bit with SignalSourceFloat/Complex). "
                 "The same model instantiated with Float32 is compared bit for bit with the real blocks and kernels in the "
                 "default, AVX and portable-simd builds; float results are compared with an f64 reference within rounding bounds.",
         "design_ref": "DESIGN.md section 2, C11",
